@@ -410,6 +410,13 @@ func (s *Session) reconnectDownedHosts(intv time.Duration) {
 					// until the next refresh; it must not get a pool
 					continue
 				}
+				if cur := s.ring.getHost(h.HostID()); cur != h {
+					// the list was taken a while ago (every host before this one may
+					// have taken a connect timeout): meanwhile the host left, or came
+					// back under the same id with another address, and a pool for this
+					// stale entry would stand in the way of its successor's
+					continue
+				}
 				// we let the pool call handleNodeConnected to change the host state
 				s.pool.addHost(h)
 			}
